@@ -44,10 +44,68 @@ def r06_1(ctx, counts: dict[str, int]) -> RuleResult:
     return res
 
 
+def r06_2(ctx, counts: dict[str, int]) -> RuleResult:
+    """Ties towards positive infinity: the rounding mode is chosen by the sign of the number."""
+    import ast
+    from ..engine.cfg import CFG, calls_may_raise
+    from ..engine.dataflow import branch_facts
+    from ..engine.srcmodel import dotted, walk_local
+    model = ctx.model
+    res = RuleResult(
+        'R06.2', 'ROUND-SIGN',
+        'F&O fn:round breaks ties towards positive infinity: half UP for positive numbers, '
+        'half DOWN (towards zero) for negative ones. In the functions bound to fn:round and in '
+        'the half-up helper, every Decimal.quantize(…, rounding=\'ROUND_HALF_UP\') is on the '
+        'true branch of a `<number> > 0` test and every ROUND_HALF_DOWN on its false branch; a '
+        'quantize without a rounding argument (pure rescale of an already rounded value) is '
+        'ignored.')
+    bound = bound_symbols(ctx.reg)
+    funcs = [f for f, s in bound.items() if 'round' in s] + [half_up_helper(model)]
+    n = 0
+    for f in funcs:
+        cfg = CFG(f.node, calls_may_raise)
+        facts = branch_facts(cfg)
+        for nd in cfg.nodes:
+            for x in nd.walk():
+                if not (isinstance(x, ast.Call) and isinstance(x.func, ast.Attribute)
+                        and x.func.attr == 'quantize'):
+                    continue
+                mode = None
+                for k in x.keywords:
+                    if k.arg == 'rounding':
+                        mode = k.value.value if isinstance(k.value, ast.Constant) \
+                            else dotted(k.value).split('.')[-1]
+                if len(x.args) > 1:
+                    a1 = x.args[1]
+                    mode = a1.value if isinstance(a1, ast.Constant) else dotted(a1).split('.')[-1]
+                if mode is None:
+                    continue
+                n += 1
+                subject = stmt_text(x.func.value)
+                fs = facts[nd.id]
+                pos = any(ft == f'+{subject} > 0' or ft == f'-{subject} <= 0' for ft in fs)
+                neg = any(ft == f'-{subject} > 0' or ft == f'+{subject} <= 0'
+                          or ft == f'+{subject} < 0' for ft in fs)
+                res.instances.append(f'{f.key}: {subject}.quantize(rounding={mode}) '
+                                     f'positive-branch={pos} negative-branch={neg}')
+                good = (mode == 'ROUND_HALF_UP' and pos) or (mode == 'ROUND_HALF_DOWN' and neg)
+                if good:
+                    res.ok()
+                else:
+                    res.fail(finding('R06.2', f, x, f'quantize {mode}',
+                                     f'`{stmt_text(x)[:70]}`: {mode} is applied '
+                                     f'{"without" if not (pos or neg) else "on the wrong side of"} '
+                                     f'the sign test `{subject} > 0`: ties are no longer broken '
+                                     f'towards positive infinity for one sign (e.g. '
+                                     f'round(-2.5) must be -2, round(2.5) must be 3)'))
+    counts['quantize_rounding_sites'] = n
+    return res
+
+
 def run(ctx) -> dict:
     counts: dict[str, int] = {}
     return {
-        'results': [r06_1(ctx, counts)], 'counts': counts,
+        'results': [r06_1(ctx, counts), r06_2(ctx, counts)], 'counts': counts,
         'explanation':
             'Only the rounding-mode clause of C06 is decided: a who-may-call rule confines '
             'Python\'s half-to-even round() to fn:round-half-to-even and __round__ methods, so '
